@@ -274,6 +274,12 @@ impl<'a> Sp<'a> {
                         o.push_str("? ");
                         o.push_str(&self.flow(k));
                         o.push_str(" : ");
+                    } else if matches!(k, Val::Str(s) if s.len() > 200) {
+                        // an implicit key may not be longer than 1024 characters: long keys take the explicit form
+                        self.feats.hit("yaml_explicit_key");
+                        o.push_str("? ");
+                        o.push_str(&self.inline_scalar(k, true, true));
+                        o.push_str(" : ");
                     } else {
                         o.push_str(&self.inline_scalar(k, true, true));
                         o.push_str(": ");
